@@ -14,7 +14,7 @@ func FragmentOK(root *Node) bool {
 		case KBalance:
 			ok = false // balancing groups are outside the fragment (and the specification)
 		case KRepeat:
-			if Nullable(n.Kids[0]) || ReducesToRepeat(n.Kids[0]) {
+			if Nullable(n.Kids[0]) || ReducesToRepeatUnder(n.Kids[0], n.Lazy) {
 				ok = false
 			}
 			switch n.Kids[0].K {
